@@ -536,7 +536,14 @@ impl P<'_> {
                 for a in pre {
                     self.line_annotation(a);
                 }
-                self.expr(inner, C_TERM | flag);
+                if matches!(**inner, E::Ann(..)) {
+                    // Only one inline annotation per term: nest through parentheses.
+                    self.tok("(");
+                    self.expr(inner, C_TOP);
+                    self.tok(")");
+                } else {
+                    self.expr(inner, C_TERM | flag);
+                }
                 if let Some(a) = post {
                     self.tok(&format!("`{a}`"));
                 }
